@@ -51,7 +51,7 @@ PROPS["C07"] = dict(
                  "Bundle tangents: three layouts run through the same correspondence and predicate (generators at the algebra offsets, out-of-range index, bracket, inner weights); theorems for Bundles are the block structure of C11"],
 )
 
-def sweep_tangent(g, gd, maxang=None, linmax=6):
+def sweep_tangent(g, gd, maxang=None, linmax=6, beyond=False):
     """tangent with rotation magnitude log-uniform in [1e-9, pi) and linear magnitude log-uniform in [1e-3, 10^linmax],
     chosen independently (the float sweeps of C02/C05/C06: accuracy must be uniform in both)"""
     t = []
@@ -64,19 +64,22 @@ def sweep_tangent(g, gd, maxang=None, linmax=6):
             t += [mag * Fr(g.r.randint(-100, 100), 100) for _ in range(n)]
         else:
             th = logu(-9, 0.49) if maxang is None else logu(-9, maxang)
-            th = min(th, Fr(314, 100)) * g.r.choice([1, -1])
+            th = min(th, Fr(314, 100))
+            if beyond and g.r.random() < 0.3:       # close to pi, and beyond pi up to several turns (C02: "from 0 to several pi")
+                th = Fr(g.r.choice([g.r.randint(3100, 3183), g.r.randint(3142, 9424), g.r.randint(9425, 31415)]), 1000)
+            th = th * g.r.choice([1, -1])
             g.note("sweep_angle:1e%d" % int(__import__("math").floor(__import__("math").log10(abs(float(th))))))
             if kind == "ang1": t += [th]
             else: t += g.vec3_norm(th) if g.r.random() < 0.6 else g.vec3_any(th)
     return t
 
-def gen_sweep(op, linmax=6):
+def gen_sweep(op, linmax=6, beyond=False):
     """predicate case in which every tangent argument comes from sweep_tangent (other arguments as usual)"""
     def f(g, gn):
         c = corr.gen_case(g, gn, op, force_valid=True)
         if g.r.random() < 0.6:
             gd = corr.group(gn); sig = corr.OPSIG[op][0]
-            c["args"] = [sweep_tangent(g, gd, linmax=linmax) if k == "T" else a for k, a in zip(sig, c["args"])]
+            c["args"] = [sweep_tangent(g, gd, linmax=linmax, beyond=beyond) if k == "T" else a for k, a in zip(sig, c["args"])]
         return c
     return f
 
@@ -272,7 +275,7 @@ PROPS["C02"] = dict(
     groups=BASE_GROUPS,
     corr_ops=["Exp", "Hat", "Generator"],
     preds=[dict(op="P02", pairs=["exp(t) = matrix exponential of hat(t)", "hat(t)=sum t_i*Generator(i)", "exp(t) finite"], scalars=("h",),
-                htol=1e-9, dscale=lambda c: (1 + maxabs(c)) ** 2, gen=gen_sweep("P02", linmax=6),
+                htol=1e-9, dscale=lambda c: (1 + maxabs(c)) ** 2, gen=gen_sweep("P02", linmax=6, beyond=True),
                 # accuracy in double: exp(t) computed in double against the 100-digit series of hat(t)
                 xscalars=("d", "h"), xref="rhs", xtol=1e-12)],
     n=dict(quick=(30, 60), thorough=(400, 1500)),
@@ -881,7 +884,7 @@ def c19_matrix(pid, P, tier, seed, log):
         g0, sc0, why = lst[0]
         src, _ = am.unit(g0, sc0, st, only=[i for i, en in enumerate(am.ENTRIES) if en[0] == name][0])
         raw.append(("pred", dict(group="api", pred="cell", entry=name, storage=st, pair="%s [%s]" % (name, st), scalar="-", cells=len(lst)),
-                    "`%s` with %s operands does not compile / link / forward for %d cells (%s): %s" % (name, {"owning": "owning", "map": "Eigen::Map", "cmap": "Eigen::Map<const>"}[st], len(lst), ", ".join(sorted(set(g for g, _, _ in lst)))[:120], why[:300]),
+                    "`%s` with %s operands does not compile / link / forward for %d cells (%s): %s" % (name, am.STORAGE_TEXT[st], len(lst), ", ".join(sorted(set(g for g, _, _ in lst)))[:120], why[:300]),
                     dict(kind="api-cell", entry=name, storage=st, cells=[(g, sc) for g, sc, _ in lst], diagnostic=why, client=src), True))
     # a listed finding whose cells all pass now is reported too (the file must be updated, a check never edits it)
     excused = [(n, g, sc, st) for (n, g, sc, st) in am.cells() if (n, st) in separate]
@@ -901,7 +904,7 @@ PROPS["C19"] = dict(
     extra=[c19_matrix],
     n=dict(quick=(4, 0), thorough=(40, 0)),
     assumptions=["exhaustive enumeration, not proof: there is no formal C++ semantics among the installed tools, so compilation / overload resolution / template instantiation are decided by running the compiler on every cell of the matrix; Coq enumerates the cells (ApiMatrix.v: all_cells, complete by theorem) and checks the regenerated obligation that every cell has an OK result",
-                 "matrix = 115 documented entries (README operation table and Jacobian section, Writing-generic-code.md, functions.h, the three algorithm headers) x 8 groups (SO2, SE2, SO3, SE3, SE_2_3, SGal3, Rn, a Bundle) x {double, float} x {owning, Eigen::Map, Eigen::Map<const>}, minus the cells the applicability rule excludes (mutation of a const view, containers of views, rotation() of Rn ...)",
+                 "matrix = 115 documented entries (README operation table and Jacobian section, Writing-generic-code.md, functions.h, the three algorithm headers) x 8 groups (SO2, SE2, SO3, SE3, SE_2_3, SGal3, Rn, a Bundle) x {double, float} x {owning, Eigen::Map, Eigen::Map<const>, three mixed-storage kinds for the binary entries}, minus the cells the applicability rule excludes (mutation of a const view, containers of views, rotation() of Rn ...)",
                  "each cell: the documented spelling compiled and linked (g++ -std=c++11) in a program that also evaluates the canonical member on owning copies and compares the two results (64 ulp)"],
 )
 
@@ -1070,7 +1073,9 @@ def run_property(pid, P, tier, seed):
     pv, pstats = eval_preds(P, pcases, log)
     log("predicates: %d evaluations, %d pairs, %d failures" % (pstats["pred_evaluations"], pstats["pred_pairs"], len(pv)))
     raw += pv
-    found_groups = set(v[1].get("group") for v in pv)
+    # groups for which a concrete failing input that is NOT a listed known finding has been found (a listed finding must never
+    # stand in for the failing input of a new disagreement of the same group)
+    found_groups = set(v[1].get("group") for v in pv if v[4] and not vcheck.match_known(Violation(pid, v[0], v[1], v[2], v[3], v[4]), known))
     # 4. broken obligation or disagreement: the property is no longer shown to hold -> search for a failing input
     dis_keys = {}
     for d in dis:
@@ -1084,6 +1089,7 @@ def run_property(pid, P, tier, seed):
             v_, _ = eval_preds(P, sc_, log)
             sv += v_
             if sv: break
+        sv = [x for x in sv if not vcheck.match_known(Violation(pid, x[0], x[1], x[2], x[3], x[4]), known)]     # a listed finding is not the failing input of this disagreement
         if sv:
             k_, sig, what, rep, fi = sv[0]
             rep = dict(rep); rep["found_by"] = "search after correspondence disagreement on %s.%s" % (gn, op)
